@@ -203,13 +203,13 @@ PROPS = {
               'type checked); check_type accepts only an expression whose type equals the expected one; the expect_* shape deciders accept exactly '
               'number / signed number / Boolean-or-number / tuple types. That every construct of type_check consults '
               'these deciders, scoping, mutability, recursion / unused-function checks and pattern refutability are NOT under contract: as the labelled '
-              'bounded stand-in, a catalogue of 108 static-rule violations (every rule named in the statement, several shapes each: operand / argument / '
+              'bounded stand-in, a catalogue of 112 static-rule violations (every rule named in the statement, several shapes each: operand / argument / '
               'return / branch / annotation / assignment type mismatches for every pair of 17 types, non-Boolean conditions, unknown and out-of-scope '
               'identifiers / fields / variants / functions, assignment to non-mut bindings / parameters / arrays / loop variables, too few and too many '
               'arguments / fields, refutable patterns in let and for, direct / mutual / 3-cycle recursion, unused private functions, public functions '
               'without parameters) is instantiated as (well-typed, ill-typed) program pairs differing only in the violation; the well-typed twin must be '
               'accepted (else the pair is not counted) and the ill-typed one must be rejected with a type error (quick: 2500 pairs covering every rule, '
-              'thorough: all 7503).',
+              'thorough: all 7535).',
         note='Trusted: (A5) derived PartialEq on the AST types is structural equality and Clone returns an equal value (admit / external_body stub: '
              'derive(Clone) on the recursive enum is replaced); constrain_type is external_body (only "an error carries a message" is assumed); '
              'vstd; extraction drops derive lists other than Clone/Copy/PartialEq/Eq/Hash/Debug and serde attributes.',
